@@ -28,13 +28,13 @@ THEOREMS = {
             "Named.C19_positional_counter_text", "Named.C19_split_join", "Named.C19_split_counter",
             "Named.C19_split_bordered_counter", "Named.C19_genFormat", "Named.C19_pairs", "Named.C19_pairs_exact_partial", "Named.C19_statement_partial",
             "Named.C19_statement_unnamed_partial", "Named.fmtSubst_render",
-            "Named.C19_json_members", "Named.C19_json_single_line", "Named.C19_template_newlines",
+            "Named.C19_json_members", "Named.C19_json_single_line", "Named.C19_template_newlines", "Named.C19_json_parses",
             "Named.C19_cache_transparent", "Named.C19_lookup_transparent", "Named.C19_logj",
             "Obligations.named_extraction_complete", "Obligations.named_separator_ok", "Obligations.named_json_layout",
             "Obligations.named_json_literals", "Obligations.named_detect_chars", "Obligations.named_process_chars",
             "Obligations.named_cache_key", "Obligations.named_logj_shape", "Obligations.C19_split_join_extracted",
             "Obligations.C19_pairs_extracted", "Obligations.C19_json_extracted",
-            "Obligations.C19_json_single_line_extracted"],
+            "Obligations.C19_json_single_line_extracted", "Obligations.C19_json_parses_extracted"],
 }
 MODULES = {"C19": ["QuillModel.Props.C19"]}
 OBLIG = ["QuillModel.Obligations.Named"]
